@@ -1,2 +1,8 @@
 import Csproto.Model.Basic
 import Csproto.Model.Wire
+import Csproto.Model.Enc
+import Csproto.Model.Dec
+import Csproto.Generated.Facts
+import Csproto.Bridge.Facts
+import Csproto.Props.C01
+import Csproto.Audit.C01
